@@ -11,6 +11,7 @@ import AnyVecModel.Proofs.KernelTempDrop
 import AnyVecModel.Proofs.KernelClear
 import AnyVecModel.Proofs.KernelClone
 import AnyVecModel.Props.Hist
+import AnyVecModel.Props.RefineMulti
 import AnyVecModel.Proofs.KernelElemDrop
 namespace AnyVec
 namespace C03
@@ -191,6 +192,44 @@ theorem drained_element_drop_is_the_source (w : World) (v slot : Nat) (d : VecSt
       (if d.hasDrop then KernelTie.runCmds { v := v } (Gen.Kernel.element_drop_cmds slot d.hasDrop)
        else do let id ← readElem v slot; dropElem false id) w :=
   KernelTie.element_drop_tie w v slot d hv hl
+
+/-! ### ownership against the abstract state of all vectors (Props/RefineMulti.lean) -/
+
+/-- **an element handed from one vector to another has one owner throughout**: in any world that shows an abstract state
+of all its vectors, `u.push(v.remove(i))` leads to a world in which the very identity that left `v` is the last item of
+`u` - not a copy, nothing destroyed (`MoveStep.moved`) - or, when `u` refuses it (other element type, no room), the
+dropped handle completes the removal and that identity is destroyed, once, and is nowhere any more
+(`MoveStep.destroyed`); out of range nothing happens. Every other vector is unchanged. -/
+theorem element_moves_keep_one_owner (cfg : Cfg) (w : World) (ms : RefineMulti.MSpec) (h : RefineMulti.MRel w ms)
+    (v u i : Nat) (hvu : v ≠ u) (a au : RefineMulti.AVec)
+    (hv : ms.vecs[v]? = some (some a)) (hu : ms.vecs[u]? = some (some au)) :
+    ∃ ms', RefineMulti.MoveStep ms v u i a au ms' ∧
+      RefineMulti.MRel (World.step cfg (.remove v i (.pushTo u)) w).1 ms' ∧
+      (World.step cfg (.remove v i (.pushTo u)) w).2.notUb :=
+  RefineMulti.move_refines cfg w ms h v u i hvu a au hv hu
+
+/-- **dropping a vector destroys each of its items exactly once, and nothing else**: in any world that shows an abstract
+state of all its vectors, dropping a live vector that shows the items `a.items` appends exactly these identities, in order,
+to the log of destructor runs, turns its component into `none`, and leaves every other vector as it was. -/
+theorem vector_drop_destroys_each_item_once (cfg : Cfg) (w : World) (ms : RefineMulti.MSpec) (h : RefineMulti.MRel w ms)
+    (v : Nat) (a : RefineMulti.AVec) (hv : ms.vecs[v]? = some (some a)) :
+    RefineMulti.MRel (World.step cfg (.dropVec v) w).1 ⟨ms.vecs.set v none, ms.next⟩ ∧
+      (World.step cfg (.dropVec v) w).2.notUb ∧
+      (World.step cfg (.dropVec v) w).1.dropLog = a.items.reverse ++ w.dropLog :=
+  RefineMulti.drop_refines cfg w ms h v a hv
+
+/-- **one owner per identity through whole life cycles**: from any world that shows an abstract state of all its vectors
+(any fault-free reachable world does), after any well-typed script - vectors created, operated on element-wise / by ranges /
+by capacity requests, cloned, elements handed from one to another, vectors dropped, in any order - the world shows a state
+of the abstract machine in which no identity occurs twice among all the vectors, every one is older than the counter of
+identities, and none of them has been destroyed. -/
+theorem one_owner_through_life_cycles (cfg : Cfg) (ops : List RefineMulti.AOp) (w : World) (ms : RefineMulti.MSpec)
+    (h : RefineMulti.MRel w ms) (hsafe : RefineMulti.Safe cfg ms ops) :
+    ∃ ms', RefineMulti.ASteps cfg ms ops ms' ∧ RefineMulti.MRel (RefineMulti.arun cfg w ops) ms' ∧
+      ms'.allItems.Nodup ∧ (∀ id ∈ ms'.allItems, id < ms'.next) ∧
+      ∀ id ∈ ms'.allItems, id ∉ (RefineMulti.arun cfg w ops).dropLog := by
+  obtain ⟨ms', hsteps, hrel⟩ := RefineMulti.life_cycles_refine cfg ops w ms h hsafe
+  exact ⟨ms', hsteps, hrel, RefineMulti.mrel_unique _ ms' hrel⟩
 
 end C03
 end AnyVec
